@@ -14,6 +14,7 @@ import (
 	"sort"
 	"strings"
 	"sync"
+	"sync/atomic"
 	"time"
 
 	"verifharness/internal/hx"
@@ -130,6 +131,10 @@ func runScenario(cs Case) (o *outcome) {
 	}
 	acquiredAt := time.Now()
 
+	// after the death of the holder only the parked contender touches the store until it has
+	// acquired (a Get or a Create of somebody else would wake it as a side effect of the lazy
+	// removal of the expired record)
+	var paused int32
 	// the polling contender: TryLock every TTL/7 (jittered)
 	wg.Add(1)
 	go func() {
@@ -141,6 +146,9 @@ func runScenario(cs Case) (o *outcome) {
 			case <-ctx.Done():
 				return
 			case <-time.After(d):
+			}
+			if atomic.LoadInt32(&paused) != 0 {
+				continue
 			}
 			func() {
 				defer func() { recover() }()
@@ -162,7 +170,9 @@ func runScenario(cs Case) (o *outcome) {
 				return
 			case <-time.After(d):
 			}
-			c.probe()
+			if atomic.LoadInt32(&paused) == 0 {
+				c.probe()
+			}
 		}
 	}()
 
@@ -200,6 +210,7 @@ func runScenario(cs Case) (o *outcome) {
 			}()
 		}()
 		sleepUntil(endAt)
+		atomic.StoreInt32(&paused, 1)
 		c.mark(kDie)
 		select {
 		case <-acq2:
@@ -207,7 +218,10 @@ func runScenario(cs Case) (o *outcome) {
 		case <-time.After(ttl + releaseMargin):
 			o.lateRelease = true
 		}
-		time.Sleep(ttl / 2)
+		if !o.lateRelease {
+			atomic.StoreInt32(&paused, 0)
+			time.Sleep(ttl / 2)
+		}
 	default:
 		o.fatal = "unknown end " + cs.End
 	}
@@ -340,6 +354,9 @@ func analyse(o *outcome) {
 	}
 	o.premise = ttl/2+o.k*(ttl/10)+(o.k+1)*(o.dl+o.ep) < ttl
 	o.failIdx, o.failCode, o.failText = mirrorCheck(ttl, evs, o.cs.End == "death")
+	if o.lateRelease && o.failCode == 0 {
+		o.failIdx, o.failCode, o.failText = len(evs), 5, "the contender parked in LockWithCtx had not acquired the lock TTL + 3 s after the death of the holder"
+	}
 }
 
 func coqLabel(e event) string {
@@ -503,7 +520,7 @@ func generate(seed uint64, thorough bool) []Case {
 		}
 		cases = append(cases, c)
 	}
-	rounds := 6
+	rounds := 4
 	if thorough {
 		rounds = 40
 	}
